@@ -279,9 +279,14 @@ def hasExt (n : Name) : Bool := n.tail.contains 46
 
 def dotHtml : Name := [46, 104, 116, 109, 108]
 
-/-- `add_html_ext` on the file name: "f.rs" ↦ "f.rs.html" (`with_extension(ext + ".html")`), but
-"f" ↦ "f..html" (`with_extension(".html")` adds its own dot) -/
-def htmlDestName (n : Name) : Name := if hasExt n then n ++ dotHtml else n ++ 46 :: dotHtml
+/-- `add_html_ext` on the file name (html.rs 204-212, after the fix /repo b1b2416):
+* `extension()` is `Some(e)` (`e` may be empty, as in "a."): `with_extension(e + ".html")` =
+  stem + "." + e + ".html" ("f.rs" ↦ "f.rs.html", "a." ↦ "a..html");
+* `None` ("f", ".hidden"): `with_extension("html")` = name + "." + "html" ("f" ↦ "f.html";
+  before the fix the argument was ".html" and the page went to "f..html", where no index linked).
+Either way ".html" is appended to the whole name (`htmlDestName_eq`). -/
+def htmlDestName (n : Name) : Name :=
+  if hasExt n then n ++ dotHtml else n ++ 46 :: [104, 116, 109, 108]
 
 /-- the names of the directory chain of a relative path, `.` dropped (`output.join` + the file
 system); paths with `..` are C19's subject -/
@@ -352,5 +357,22 @@ to the output directory first and then every directory index; the index of the d
 (results at the root) goes to the SAME file `index.html` and replaces it. -/
 def HtmlSite.indexFiles (s : HtmlSite) : List (List Name × (Option Path × List Name)) :=
   s.dirs.foldl (fun m df => set m (dirLoc df.1) (some df.1, df.2)) [([], (none, s.globalIndex))]
+
+def indexHtml : Name := [105, 110, 100, 101, 120, 46, 104, 116, 109, 108]
+def indexName : Name := [105, 110, 100, 101, 120]
+
+/-- `d` is the location of one of the `index.html` files -/
+def HtmlSite.isIndexFile (s : HtmlSite) (d : List Name) : Bool :=
+  s.indexFiles.any fun ix => decide (ix.1 ++ [indexHtml] = d)
+
+/-- the page file found at `d` once `output_html` has returned: the pages are written by the
+consumer threads first, `gen_index` writes the index files afterwards, so a page whose destination
+is `<directory>/index.html` (since the fix b1b2416: the page of a source file named `index`) is
+replaced by that directory's index -/
+def HtmlSite.pageAt (s : HtmlSite) (d : List Name) : Option (List Int) :=
+  if s.isIndexFile d then none else get? s.pages d
+
+def HtmlSite.pageFiles (s : HtmlSite) : List (List Name × List Int) :=
+  s.pages.filter fun p => !s.isIndexFile p.1
 
 end Grcov.Writers.Docs
